@@ -289,6 +289,21 @@ impl<'tcx> Dumper<'tcx> {
             ("local", b(did.is_local())),
         ];
         let dk = tcx.def_kind(did);
+        if let DefKind::Ctor(of, _) = dk {
+            // tuple-struct / tuple-variant constructor used as a function
+            let (adt_did, vname) = match of {
+                rustc_hir::def::CtorOf::Variant => {
+                    let v = tcx.parent(did);
+                    (tcx.parent(v), tcx.item_name(v).to_string())
+                }
+                rustc_hir::def::CtorOf::Struct => {
+                    let sdid = tcx.parent(did);
+                    (sdid, tcx.item_name(sdid).to_string())
+                }
+            };
+            items.push(("ctor_adt", esc(&self.path(adt_did))));
+            items.push(("ctor_variant", esc(&vname)));
+        }
         if matches!(dk, DefKind::AssocFn) {
             if let Some(tr) = tcx.trait_of_assoc(did) {
                 items.push(("trait", esc(&self.path(tr))));
